@@ -4,6 +4,7 @@
 -/
 import PsutilModel.Proofs.C01
 namespace Psutil.C01
+variable {nt : Bool}
 open Spec
 
 /-- the part of the configuration identity (C02) rests on -/
@@ -20,6 +21,7 @@ structure Cfg.Good (c : Cfg) : Prop extends Cfg.BootGood c where
   guardRlimit : c.guardRlimit = true
   guardAffinity : c.guardAffinity = true
   pid0Refused : c.pid0Refused = true
+  rlimitPid0Refused : c.rlimitPid0Refused = true
   negRejected : c.negRejected = true
   sigStop : c.sigStop = SIGSTOP
   sigCont : c.sigCont = SIGCONT
@@ -36,8 +38,33 @@ structure ObjOK (clk : Nat) (k : Kernel) (B : Nat) (o : PObj) : Prop where
   ctime_eq : o.ctime = o.ident
   dead : (o.gone || o.reused) = true → k.owner o.pid ≠ some o.ghost
   nohide : k.hidden = []
+  stamps : ∀ x ∈ k.procs, x.stamp = x.start
 
-theorem hidden_apply {k : Kernel} (e : KEv) (he : e.OK) (h : k.hidden = []) : (k.apply e).hidden = [] := by
+/-- one stamp per incarnation survives every event a history may contain (`spawnSameTick` is not one) -/
+theorem stamps_apply {k : Kernel} (e : KEv) (he : ∀ p, e ≠ .spawnSameTick p) (h : ∀ x ∈ k.procs, x.stamp = x.start) :
+    ∀ x ∈ (k.apply e).procs, x.stamp = x.start := by
+  cases e with
+  | spawn p =>
+    simp only [Kernel.apply]; split
+    · exact h
+    · intro x hx
+      rcases List.mem_cons.1 hx with rfl | hx
+      · rfl
+      · exact h x hx
+  | exit p =>
+    intro x hx
+    simp only [Kernel.apply, List.mem_map] at hx
+    obtain ⟨y, hy, rfl⟩ := hx
+    have := h y hy
+    split <;> exact this
+  | reap p => exact fun x hx => h x (List.mem_filter.1 hx).1
+  | tick n => exact h
+  | setBtime b => exact h
+  | perm p e => rw [(apply_perm_rest k p e).1]; exact h
+  | hide p b => rw [(apply_hide_rest k p b).1]; exact h
+  | spawnSameTick p => exact absurd rfl (he p)
+
+theorem hidden_apply {k : Kernel} (e : KEv) (he : e.OK nt) (h : k.hidden = []) : (k.apply e).hidden = [] := by
   cases e with
   | spawn p => simp only [Kernel.apply]; split <;> exact h
   | exit p => exact h
@@ -49,23 +76,24 @@ theorem hidden_apply {k : Kernel} (e : KEv) (he : e.OK) (h : k.hidden = []) : (k
     simp only [KEv.OK] at he
     subst he
     simp [Kernel.apply, h]
+  | spawnSameTick p => exact he.elim
 
 theorem isHidden_false {k : Kernel} (h : k.hidden = []) (pid : Nat) : k.isHidden pid = false := by
   simp [Kernel.isHidden, h]
 
-structure PInv (clk : Nat) (k : Kernel) (ps : Ps) : Prop where
-  boot_nz : ∀ B, ps.bootTime = some B → B ≠ 0
+structure PInv (nt : Bool) (clk : Nat) (k : Kernel) (ps : Ps) : Prop where
+  boot_nz : ∀ B, ps.bootTime = some B → BtOK nt B
   objs : ∀ o ∈ ps.objs, ∃ B, ps.bootTime = some B ∧ ObjOK clk k B o
   /-- every entry of process_iter's cache points at an object of that PID -/
   pmap : ∀ e ∈ ps.pmap, ∃ o, ps.objs[e.2]? = some o ∧ o.pid = e.1
 
-theorem ObjOK.apply {clk : Nat} {k : Kernel} {B : Nat} {o : PObj} (h : ObjOK clk k B o) (e : KEv) (he : e.OK) :
+theorem ObjOK.apply {clk : Nat} {k : Kernel} {B : Nat} {o : PObj} (h : ObjOK clk k B o) (e : KEv) (he : e.OK nt) :
     ObjOK clk (k.apply e) B o :=
   ⟨Nat.lt_of_lt_of_le h.ghost_lt (clock_mono k e), h.ident_eq, h.ctime_eq,
-   fun hd => dead_stays_dead k e o.pid o.ghost h.ghost_lt (h.dead hd), hidden_apply e he h.nohide⟩
+   fun hd => dead_stays_dead k e o.pid o.ghost h.ghost_lt (h.dead hd), hidden_apply e he h.nohide, stamps_apply e (fun p hp => by subst hp; exact he) h.stamps⟩
 
-theorem PInv.apply {clk : Nat} {k : Kernel} {ps : Ps} (h : PInv clk k ps) (e : KEv) (he : e.OK) :
-    PInv clk (k.apply e) ps :=
+theorem PInv.apply {clk : Nat} {k : Kernel} {ps : Ps} (h : PInv nt clk k ps) (e : KEv) (he : e.OK nt) :
+    PInv nt clk (k.apply e) ps :=
   ⟨h.boot_nz, fun o ho => let ⟨B, hb, hok⟩ := h.objs o ho; ⟨B, hb, hok.apply e he⟩, h.pmap⟩
 
 /-! ### boot time -/
@@ -79,7 +107,7 @@ theorem bootTimeCall_none {c : Cfg} {k : Kernel} {ps : Ps}
   simp [bootTimeCall, h]
 
 theorem bootForCreate_some {c : Cfg} (hc : c.BootGood) {k : Kernel} {ps : Ps} {B : Nat}
-    (h : ps.bootTime = some B) (hnz : B ≠ 0) : bootForCreate c k ps = (ps, B) := by
+    (h : ps.bootTime = some B) (hnz : BtOK c.createNoneTest B) : bootForCreate c k ps = (ps, B) := by
   simp [bootForCreate, hc.cache, h, hnz]
 
 theorem bootForCreate_none {c : Cfg} (hc : c.BootGood) {k : Kernel} {ps : Ps}
@@ -124,7 +152,7 @@ structure IsRunningSpec (clk : Nat) (k : Kernel) (B : Nat) (ps : Ps) (o : PObj) 
   keep : r.2.2 = true → r.2.1 = o
 
 theorem isRunningO_spec {c : Cfg} (hc : c.BootGood) {k : Kernel} {ps : Ps} {B : Nat} {o : PObj}
-    (hb : ps.bootTime = some B) (hnz : B ≠ 0) (hok : ObjOK c.clk k B o) :
+    (hb : ps.bootTime = some B) (hnz : BtOK c.createNoneTest B) (hok : ObjOK c.clk k B o) :
     IsRunningSpec c.clk k B ps o (isRunningO c k ps o) := by
   unfold isRunningO
   by_cases hflag : (o.gone || o.reused) = true
@@ -144,7 +172,8 @@ theorem isRunningO_spec {c : Cfg} (hc : c.BootGood) {k : Kernel} {ps : Ps} {B : 
       · intro _; rfl
       · intro h; cases h
     | some x =>
-      simp only [mkObj, hf, bootForCreate_some hc hb hnz, isHidden_false hok.nohide, Bool.false_eq_true, if_false]
+      simp only [mkObj, hf, bootForCreate_some hc hb hnz, isHidden_false hok.nohide, Bool.false_eq_true, if_false,
+        hok.stamps x (List.mem_of_find?_eq_some hf)]
       by_cases hid : o.ident = some (x.start + c.clk * B)
       · rw [if_neg (by simpa using hid)]
         have hx : x.start = o.ghost := by
@@ -222,7 +251,7 @@ structure Keeps (clk : Nat) (k : Kernel) (B : Nat) (ps : Ps) (o : PObj) (ps' : P
   ok : ObjOK clk k B o'
 
 theorem raise_keeps {c : Cfg} (hc : c.BootGood) {k : Kernel} {ps : Ps} {B : Nat} {o : PObj}
-    (hb : ps.bootTime = some B) (hnz : B ≠ 0) (hok : ObjOK c.clk k B o) :
+    (hb : ps.bootTime = some B) (hnz : BtOK c.createNoneTest B) (hok : ObjOK c.clk k B o) :
     Keeps c.clk k B ps o (raiseIfPidReusedO c k ps o).1 (raiseIfPidReusedO c k ps o).2.1 := by
   have hs := isRunningO_spec hc hb hnz hok
   rw [raise_eq]
@@ -235,7 +264,7 @@ theorem raise_keeps {c : Cfg} (hc : c.BootGood) {k : Kernel} {ps : Ps} {B : Nat}
 
 /-- with the `_gone` test in place, the guard lets exactly the live incarnation through -/
 theorem raise_false_iff {c : Cfg} (hc : c.BootGood) (hg : c.goneRaises = true) {k : Kernel} {ps : Ps}
-    {B : Nat} {o : PObj} (hb : ps.bootTime = some B) (hnz : B ≠ 0) (hok : ObjOK c.clk k B o) :
+    {B : Nat} {o : PObj} (hb : ps.bootTime = some B) (hnz : BtOK c.createNoneTest B) (hok : ObjOK c.clk k B o) :
     (raiseIfPidReusedO c k ps o).2.2 = false ↔ k.owner o.pid = some o.ghost := by
   have hs := isRunningO_spec hc hb hnz hok
   rw [raise_eq]
@@ -265,7 +294,7 @@ theorem raise_false_iff {c : Cfg} (hc : c.BootGood) (hg : c.goneRaises = true) {
         simp [hgo, hg, hdead]
 
 theorem guarded_keeps {c : Cfg} (hc : c.BootGood) (has : Bool) {k : Kernel} {ps : Ps} {B : Nat} {o : PObj}
-    (hb : ps.bootTime = some B) (hnz : B ≠ 0) (hok : ObjOK c.clk k B o) :
+    (hb : ps.bootTime = some B) (hnz : BtOK c.createNoneTest B) (hok : ObjOK c.clk k B o) :
     Keeps c.clk k B ps o (guardedO c has k ps o).1 (guardedO c has k ps o).2.1 := by
   unfold guardedO
   cases has with
@@ -273,7 +302,7 @@ theorem guarded_keeps {c : Cfg} (hc : c.BootGood) (has : Bool) {k : Kernel} {ps 
   | false => exact ⟨PsSame.refl _, Evolves.refl _, hok⟩
 
 theorem guarded_false_iff {c : Cfg} (hc : c.BootGood) (hg : c.goneRaises = true) {k : Kernel} {ps : Ps}
-    {B : Nat} {o : PObj} (hb : ps.bootTime = some B) (hnz : B ≠ 0) (hok : ObjOK c.clk k B o) :
+    {B : Nat} {o : PObj} (hb : ps.bootTime = some B) (hnz : BtOK c.createNoneTest B) (hok : ObjOK c.clk k B o) :
     (guardedO c true k ps o).2.2 = false ↔ k.owner o.pid = some o.ghost := by
   simpa [guardedO] using raise_false_iff hc hg hb hnz hok
 
@@ -285,10 +314,10 @@ theorem Keeps.setGone {clk : Nat} {k : Kernel} {B : Nat} {ps ps' : Ps} {o o' : P
   ⟨h.same, ⟨h.evo.pid, h.evo.ghost, h.evo.ident, h.evo.ctime, fun _ => rfl, h.evo.reused⟩,
    ⟨h.ok.ghost_lt, h.ok.ident_eq, h.ok.ctime_eq, fun _ => by
       show k.owner o'.pid ≠ some o'.ghost
-      rw [h.evo.pid]; simp [Kernel.owner, hf], h.ok.nohide⟩⟩
+      rw [h.evo.pid]; simp [Kernel.owner, hf], h.ok.nohide, h.ok.stamps⟩⟩
 
 theorem signalM_keeps {c : Cfg} (hc : c.BootGood) {k : Kernel} {ps : Ps} {B : Nat} {o : PObj}
-    (hb : ps.bootTime = some B) (hnz : B ≠ 0) (hok : ObjOK c.clk k B o) (m : SigMethod) :
+    (hb : ps.bootTime = some B) (hnz : BtOK c.createNoneTest B) (hok : ObjOK c.clk k B o) (m : SigMethod) :
     Keeps c.clk k B ps o (signalM c k ps o m).ps (signalM c k ps o m).o := by
   have hk := guarded_keeps hc c.guardSignal hb hnz hok
   rw [signalM_eq]
@@ -301,7 +330,7 @@ theorem signalM_keeps {c : Cfg} (hc : c.BootGood) {k : Kernel} {ps : Ps} {B : Na
       · exact hk
 
 theorem setterM_keeps {c : Cfg} (hc : c.BootGood) {k : Kernel} {ps : Ps} {B : Nat} {o : PObj}
-    (hb : ps.bootTime = some B) (hnz : B ≠ 0) (hok : ObjOK c.clk k B o) (kind : SetKind) (args : List Int) :
+    (hb : ps.bootTime = some B) (hnz : BtOK c.createNoneTest B) (hok : ObjOK c.clk k B o) (kind : SetKind) (args : List Int) :
     Keeps c.clk k B ps o (setterM c k ps o kind args).ps (setterM c k ps o kind args).o := by
   have hk := guarded_keeps hc (guardOf c kind) hb hnz hok
   rw [setterM_eq]
@@ -312,7 +341,7 @@ theorem setterM_keeps {c : Cfg} (hc : c.BootGood) {k : Kernel} {ps : Ps} {B : Na
     · split <;> exact hk
 
 theorem ppidM_keeps {c : Cfg} (hc : c.BootGood) {k : Kernel} {ps : Ps} {B : Nat} {o : PObj}
-    (hb : ps.bootTime = some B) (hnz : B ≠ 0) (hok : ObjOK c.clk k B o) :
+    (hb : ps.bootTime = some B) (hnz : BtOK c.createNoneTest B) (hok : ObjOK c.clk k B o) :
     Keeps c.clk k B ps o (ppidM c k ps o).ps (ppidM c k ps o).o := by
   have hk := guarded_keeps hc c.guardPpid hb hnz hok
   rw [ppidM_eq]
@@ -321,7 +350,7 @@ theorem ppidM_keeps {c : Cfg} (hc : c.BootGood) {k : Kernel} {ps : Ps} {B : Nat}
   · split <;> exact hk
 
 theorem method_keeps {c : Cfg} (hc : c.BootGood) {k : Kernel} {ps : Ps} {B : Nat} {o : PObj}
-    (hb : ps.bootTime = some B) (hnz : B ≠ 0) (hok : ObjOK c.clk k B o) {call : Call} {r : MRes}
+    (hb : ps.bootTime = some B) (hnz : BtOK c.createNoneTest B) (hok : ObjOK c.clk k B o) {call : Call} {r : MRes}
     (hm : method c k ps o call = some r) : Keeps c.clk k B ps o r.ps r.o := by
   cases call <;> simp only [method, Option.some.injEq, reduceCtorEq] at hm
   · subst hm
